@@ -170,6 +170,58 @@ theorem failure_isolated_partial (cfg : Cfg) (evs : List Ev) (k : Nat) (o : Outc
   intro c hx hne
   exact step_complete_keeps_others (inv_run evs (inv_init cfg)) k o ho x hx hne
 
+/-- A handler that raises `CancelledError` from the inside (it awaited something of the server that
+somebody else cancelled) while its connection is live: `_call_and_capture_failure` turns it into
+a reply like any other exception.  On an idle working writer exactly one error reply (the
+`RemoteFailure` of a `CancelledError`, not a usage error, hence `RPCError` for the caller) is
+written at once under the id of that call, every other handler keeps running, nothing fails. -/
+theorem cancelled_inside_gets_one_error_reply (cfg : Cfg) (evs : List Ev) (k : Nat) (call : Call) (name : Name) :
+    let c := run cfg {} evs
+    c.invoked[k]? = some (call, name) → call ∈ c.inflight →
+    c.sendAlive = true → c.sendBlocked = false → c.lost = false →
+    let c' := step cfg c (.complete k .cancelledInside)
+    c'.sent = c.sent ++ [⟨call, .cancelFailure⟩] ∧
+    (∀ x ∈ c.inflight, x ≠ call → x ∈ c'.inflight) ∧ c'.cancelled = c.cancelled := by
+  intro c hk hin ha hb hl c'
+  have hinv : Inv cfg c := inv_run evs (inv_init cfg)
+  refine ⟨step_complete_writes hinv k .cancelledInside call name hk hin ha hb hl, ?_, ?_⟩
+  · intro x hx hne
+    refine (step_complete_keeps_others hinv k .cancelledInside (by simp) x hx ?_).1
+    rw [hk]; simpa using fun e => hne e.symm
+  · cases hin' : c.inflight with
+    | nil => rw [hin'] at hin; cases hin
+    | cons y ys =>
+      by_cases hy : c.invoked[k]?.map (·.1) = some y
+      · -- `y` is the completing call itself: use the frame lemma through `complete` directly
+        unfold c' step
+        rw [(settleRecv_inflight _).2]
+        simp only [stepCore, hk, hin, if_true]
+        exact (complete_keeps_inflight (by simpa [Idle] using hinv.idle) call _ (by simp)).2
+      · exact (step_complete_keeps_others hinv k .cancelledInside (by simp) y (by rw [hin']; simp) hy).2
+
+/-- The same in every context: such a handler is one of the "benign" completions of
+`server_exactly_once_without_faults` and one of the outcomes of `failure_isolated_partial`. -/
+example : (Ev.complete 0 .cancelledInside).benign = true ∧ Outcome.cancelledInside ≠ .unpicklable := by decide
+
+/-- Writer loss: which `ConnectionError` subclass the transport reports (`ConnectionResetError`,
+`BrokenPipeError`, `ConnectionAbortedError`) and whether `write` or `drain` raises it makes no
+difference to the connection. -/
+theorem writer_loss_class_irrelevant (cfg : Cfg) (c : Conn) (k k' : LossClass) (s s' : LossSite) :
+    step cfg c (.lose k s) = step cfg c (.lose k' s') := rfl
+
+/-- A peer that vanishes never crashes the connection and never costs a handler: on every script
+without a malformed frame and without an unpicklable result (calls, close request, EOF/reset,
+`stop()`, handlers ending in any order with a result or any exception including a
+`CancelledError` from inside, big replies, the writer pausing, draining and being lost with any
+`ConnectionError` while calls are in flight), `serve()` does not raise and no handler is cancelled:
+every request that arrived in full runs to completion. -/
+theorem vanished_peer_never_fails_connection (cfg : Cfg) (evs : List Ev) (he : ∀ e ∈ evs, e.harmless = true) :
+    let c := run cfg {} evs
+    c.failed = none ∧ c.cancelled = [] := by
+  intro c
+  have h : Quiet c := quiet_run evs ⟨rfl, rfl, rfl, fun _ h => by cases h⟩ he
+  exact ⟨h.1, h.2.1⟩
+
 /-! ## (3) The client -/
 
 /-- The full statement: a reply with an id that is not pending leaves the other calls alone.
@@ -325,6 +377,23 @@ example : let c := run wCfg {} liveScript
     c.stopped = false ∧ c.inflight = [] ∧ c.sendBlocked = false ∧
     c.sent = [⟨⟨1, 2⟩, .failure true (some 3)⟩, ⟨⟨2, 3⟩, .failure false none⟩, ⟨⟨0, 1⟩, .value⟩] := by
   decide
+
+/-- A script for `vanished_peer_never_fails_connection`: two calls in flight, a big reply fills the
+buffer, the peer vanishes with a broken pipe while the send loop waits in `drain()`; the other
+handler still completes, `serve()` ends normally. -/
+def vanishScript : List Ev :=
+  [.frame (.call 1 wName true), .frame (.call 2 wName true), .complete 1 .bigResult,
+   .lose .brokenPipe .drain, .complete 0 .cancelledInside, .eof]
+
+example : (∀ e ∈ vanishScript, e.harmless = true) ∧
+    (let c := run wCfg {} vanishScript
+     c.failed = none ∧ c.cancelled = [] ∧ c.finished = true ∧ c.sent = [⟨⟨1, 2⟩, .value⟩] ∧ c.dropped = [⟨0, 1⟩]) := by
+  decide
+
+/-- A state for `cancelled_inside_gets_one_error_reply`. -/
+example : let c := run wCfg {} [.frame (.call 1 wName true), .frame (.call 2 wName true)]
+    c.invoked[0]? = some (⟨0, 1⟩, wName) ∧ (⟨0, 1⟩ : Call) ∈ c.inflight ∧ c.sendAlive = true ∧
+    c.sendBlocked = false ∧ c.lost = false := by decide
 
 /-- The negation witness ends quiescent with the call dropped. -/
 example : let c := run wCfg {} dropScript
